@@ -102,18 +102,15 @@ GEO_POST = {
     "forward_common_unchanged": "implies(n_emitted() == 1, emitted0()[4:12] == common_header_int(common_header).to_bytes(8, 'big'))",
     "forward_rest_identical": "implies(n_emitted() == 1 and lpv_conformant(packet, 4), emitted0()[12:] == packet)",
 }
-import copy as _copy
-ROUTER_CBFK = _copy.copy(ROUTER)
-ROUTER_CBFK.fields = dict(ROUTER.fields, _cbf_buffer=T.keymap("cbf_buffer", T.tuple(GNADDR, T.int(0, 65535)), T.opaque("timer")))
 GBC_POST = dict(GEO_POST)
 GBC_POST["duplicate_overheard_drops_the_copy_waiting_in_the_cbf_buffer"] = (
-    "implies(len(ghost('lt_duplicates')) == 1 and old(map_has(self._cbf_buffer, map_key0(self._cbf_buffer))), "
-    "not map_has(self._cbf_buffer, old(map_key0(self._cbf_buffer))) and len(ghost('timers_cancelled')) == 1 "
-    "and ghost('timers_cancelled')[0] is old(map_get(self._cbf_buffer, map_key0(self._cbf_buffer))) and n_emitted() == 0)")
+    "implies(len(ghost('lt_duplicates')) == 1 and old(map_has(self._cbf_buffer, cbf_key_of(packet))), "
+    "not map_has(self._cbf_buffer, cbf_key_of(packet)) and len(ghost('timers_cancelled')) == 1 "
+    "and ghost('timers_cancelled')[0] is old(map_get(self._cbf_buffer, cbf_key_of(packet))) and n_emitted() == 0)")
 contract(f"{RT}:Router.gn_data_indicate_gbc", returns=ind_of("GeoBroadcastHST"), props=["C06", "C01", "C07", "C08", "C20", "C04"],
-         shapes={"self": ROUTER_CBFK, "packet": T.bytes(0, 2000), "common_header": common_of("GEOBROADCAST", "GeoBroadcastHST"),
+         shapes={"self": ROUTER, "packet": T.bytes(0, 2000), "common_header": common_of("GEOBROADCAST", "GeoBroadcastHST"),
                  "basic_header": BASIC},
-         requires=RX_PRE + ["implies(len(packet) >= 44, map_key0(self._cbf_buffer) == cbf_key_of(packet))", "self.mib.itsGnMaxGeoAreaSize >= 0", "self.mib.itsGnDefaultMaxCommunicationRange > 0", "0 <= self.mib.itsGnCbfMinTime <= self.mib.itsGnCbfMaxTime"], opaque=["F_area", "area_size_m2"],
+         requires=RX_PRE + ["self.mib.itsGnMaxGeoAreaSize >= 0", "self.mib.itsGnDefaultMaxCommunicationRange > 0", "0 <= self.mib.itsGnCbfMinTime <= self.mib.itsGnCbfMaxTime"], opaque=["F_area", "area_size_m2"],
          inline=[f"{RT}:Router.gn_data_forward_gbc", f"{RT}:Router.gn_area_cbf_forwarding"],
          raises={DE: "len(packet) < 44", "ValueError": "len(packet) >= 44 and st_field(packet, 4) > 12"},
          ensures=GBC_POST, cover=["result is not None", "n_sent() == 1", "n_timers() == 1", "len(ghost('timers_cancelled')) == 1"], **S)
